@@ -24,14 +24,14 @@ func pathD(v ssa.Value, d int) string {
 	}
 	switch x := v.(type) {
 	case *ssa.Parameter:
-		return x.Name()
+		return pname(x)
 	case *ssa.FreeVar:
-		return x.Name()
+		return canonLocalName(x.Parent(), x.Name())
 	case *ssa.Global:
 		return x.Name()
 	case *ssa.Alloc:
 		if x.Comment != "" && x.Comment != "complit" && !strings.HasPrefix(x.Comment, "new") && !strings.HasPrefix(x.Comment, "make") {
-			return x.Comment
+			return canonLocalName(x.Parent(), x.Comment)
 		}
 		return x.Comment + "@" + x.Name()
 	case *ssa.FieldAddr:
